@@ -451,3 +451,62 @@ class SeedSecondFile:
         s.create_property("p", [1])
         s.create_section("sub", "t")
         return res("ok")
+
+
+@op("fresh_copy_ids")
+class FreshCopyIds:
+    """Terminating experiment (C03): an entity that owns others (block, section subtree, tag / multi-tag
+    with features, array) is copied inside the same file with keep_id=False - every entity the copy
+    creates is a created entity and 'receives an id that is a well-formed UUID [and] differs from
+    every other id in the file'.  Judged by walking the real file; nothing else about the copy is
+    judged here (that is C20)."""
+    KINDS = ["block", "block", "section", "section", "tag", "mtag", "array"]
+
+    def gen(self, run, rng):
+        kinds = [k for k in self.KINDS if run.enum(k)]
+        if not kinds:
+            return None
+        return {"op": "fresh_copy_ids", "kind": P.pick(rng, kinds), "src": idx(rng), "dst": idx(rng),
+                "src_via": P.pick(rng, [0, 0, 1, 4, 5]), "into_section": rng.random() < 0.5}
+
+    def do(self, run, o):
+        from .ops_struct import check_ids_unique
+        kind = o["kind"]
+        sm = run.pick(kind, o["src"])
+        if sm is None:
+            return res(NOOP)
+        fs = run.fstate()
+        df = fs.real
+        sh = run.R(sm, o.get("src_via", 0))
+        if kind == "block":
+            parent, existing = df, [b.name for b in df.blocks]
+            mk = lambda nm: parent.create_block(name=nm, copy_from=sh, keep_copy_id=False)  # noqa
+        elif kind == "section":
+            parent = df
+            if o.get("into_section"):
+                inside = set(x.uid for x in sm.subtree())
+                cands = [x for x in run.enum("section") if x.uid not in inside]
+                if cands:
+                    parent = run.R(cands[o["dst"] % len(cands)], 0)
+            existing = [x.name for x in parent.sections]
+            mk = lambda nm: parent.copy_section(sh, children=True, keep_id=False, name=nm)  # noqa
+        else:
+            blocks = list(df.blocks)
+            if not blocks:
+                return res(NOOP)
+            parent = blocks[o["dst"] % len(blocks)]
+            attr = {"array": "data_arrays", "tag": "tags", "mtag": "multi_tags"}[kind]
+            meth = {"array": "create_data_array", "tag": "create_tag", "mtag": "create_multi_tag"}[kind]
+            existing = [x.name for x in getattr(parent, attr)]
+            mk = lambda nm: getattr(parent, meth)(name=nm, copy_from=sh, keep_copy_id=False)  # noqa
+        name = "fresh-of-" + sm.name
+        i = 0
+        while name in existing:
+            i += 1
+            name = "fresh%d-of-%s" % (i, sm.name)
+        r = run.call(lambda: mk(name))
+        if r[0] == "exc":
+            raise StopRun("fresh_copy_ids: copy refused (%s)" % type(r[1]).__name__)
+        check_ids_unique(run, "fresh_copy_" + kind, compare_model=False)
+        run.stats["fresh_copy_ids:" + kind] += 1
+        raise StopRun("fresh copy id experiment done")
